@@ -676,7 +676,7 @@ pub fn prepare<K: KeyT, V: ValT>(op: &MapOp, nv: u8) -> Args<K, V> {
     a.d.kd = a.k.as_ref().map(|k| k.kd());
     a.d.vd = a.v.as_ref().map(|v| v.vd());
     a.d.v2d = a.v2.as_ref().map(|v| v.vd());
-    if V::LEDGER {
+    if V::HAS_ID {
         a.d.default_vd.id = pl::next_id();
     }
     a
@@ -1315,6 +1315,15 @@ pub fn flush_ledger(cx: &mut Ctx, pm: PMask, when: &str) -> bool {
     false
 }
 
+thread_local! {
+    /// ids of objects that are legitimately alive outside the container being stepped
+    /// (e.g. the other copy in clone_mc)
+    pub static ALSO_LIVE: std::cell::RefCell<Vec<u32>> = const { std::cell::RefCell::new(Vec::new()) };
+}
+pub fn set_also_live(ids: Vec<u32>) {
+    ALSO_LIVE.with(|a| *a.borrow_mut() = ids);
+}
+
 pub struct MapSys<K, V, const N: usize> {
     pub nk: u8,
     pub nv: u8,
@@ -1466,6 +1475,7 @@ impl<K: KeyT, V: ValT, const N: usize> MapSys<K, V, N> {
             consistent &= flush_ledger(cx, own, "during the call");
             let mut expect = model.stored_ids();
             expect.extend(probes.iter().filter(|_| K::LEDGER).map(|p| p.kd().id));
+            ALSO_LIVE.with(|a| expect.extend(a.borrow().iter().copied()));
             let mut leak_ok = leaked.clone();
             leak_ok.extend(mo.leak_ok.iter().copied());
             let mut with_held = expect.clone();
@@ -1532,6 +1542,12 @@ impl<K: KeyT, V: ValT, const N: usize> MapSys<K, V, N> {
     /// Build a fresh container by replaying `path` (quietly). Returns the pieces.
     pub fn build(&self, path: &[u32], cx: &mut Ctx) -> Built<K, V, N> {
         pl::reset();
+        set_also_live(Vec::new());
+        self.build_more(path, cx)
+    }
+
+    /// Like `build`, but in the current ledger epoch (objects built earlier stay valid).
+    pub fn build_more(&self, path: &[u32], cx: &mut Ctx) -> Built<K, V, N> {
         let mut bx = Canary::boxed(Map::<K, V, N>::new());
         let mut model = RefMap::new(N);
         let probes = self.probes();
